@@ -48,7 +48,7 @@ var c13Points = map[string][]string{
 	"snapshot":    {"snapshot.locked"},
 	"jsonlog":     {"jsonlog.unlocked"},
 	"heads":       {"heads.unlocked"},
-	"rawheads":    {"rawheads.enter"},
+	"rawheads":    {"rawheads.enter", "rawheads.held"},
 	"getentries":  {"getentries.enter"},
 	"iterator":    {"iterator.locked", "iterator.unlocked"},
 	"iterbounds":  {"iterator.locked", "iterator.unlocked"},
@@ -83,6 +83,25 @@ func (a *inspectACL) CanAppend(e accesscontroller.LogEntry, _ idp.Interface, c a
 		atomic.AddInt64(&a.looked, int64(len(c.GetLogEntries())))
 	}
 	return nil
+}
+
+// aheadSource adds (and returns the index of) a frozen source that is AHEAD of L: it holds everything L holds now
+// plus entries on top, so its head names L's current heads as predecessors.
+func (s *scene) aheadSource(tag string, n int) int {
+	src := s.w.NewLog(1)
+	_, _ = src.Join(s.L, -1)
+	for k := 0; k < n; k++ {
+		_, _ = src.Append(s.w.Ctx, []byte(fmt.Sprintf("ahead-%s-%d", tag, k)), nil)
+	}
+	set := hx.Observe(src).Set
+	s.mu.Lock()
+	s.srcs = append(s.srcs, src)
+	s.srcSets = append(s.srcSets, set)
+	for h, e := range set {
+		s.universe[h] = e
+	}
+	s.mu.Unlock()
+	return len(s.srcs) - 1
 }
 
 func newScene(seed int64, idx int, nsrc int, rng *rand.Rand) *scene {
@@ -314,7 +333,11 @@ func (s *scene) do(run *evid.Run, g int, kind string, rng *rand.Rand, exact bool
 		r.Ret = s.tick()
 		s.checkAntichain(run, "Heads()", v, wit)
 	case "rawheads":
-		v := hx.Hashes(L.RawHeads().Slice())
+		hm := L.RawHeads()
+		// the caller holds the result for a while before looking at it (a harness-side hook point: the sweep parks
+		// the reader HERE while a writer runs): what was handed out is a snapshot and must still be consistent
+		hookFn(L, "rawheads.held")
+		v := hx.Hashes(hm.Slice())
 		r.Ret = s.tick()
 		s.checkAntichain(run, "RawHeads()", v, wit)
 	case "getentries":
